@@ -11,7 +11,15 @@ gen/run:  the four routines on every TLC-enumerated model graph (directed and un
           graphs with 6..10 nodes.
 validate: spec/Trace_Betweenness.tla judges every record (exact fractions vs observed 10^-6
           fixed point).
+scale:    besides "all small inputs" a seeded family of CHAINS OF GADGETS (spec/BetweennessChain.tla;
+          MC_BetweennessChain proves the composition operator equal to the definitions on small
+          chains): 130..400 nodes, 2^20 / 2^40 / 2^70 / 3^40 / 3^85 tied shortest paths, walk counts
+          beyond 2^63 / 3.4e38 (clique + long path), lengths b * 2^e with e sweeping -13..13 along
+          100+-hop chains, wide frontiers (bundles), dense blocks, one-way / unreachable gadgets at
+          scale, int8 / int16 argument arrays.  TLC judges the exact values, the zero pattern of
+          the connection matrix and "edge routine node vector = node routine".
 """
+import math
 import random
 
 import numpy as np
@@ -38,11 +46,13 @@ def arg_dtype(fn, dtype):
 
 def exec_job(job):
     import bct
+    if job.get("kind") == "chain":
+        return exec_chain(job)
     A0 = np.array(job["A"], dtype=float)
     n = len(A0)
     fn = job["fn"]
     dt, lay = job.get("draw", job.get("dtype", "float64")), job.get("layout", "C")
-    rec = dict(fn=fn, n=n, A=encode.mat_int(A0), raised="", malformed="",
+    rec = dict(fn=fn, kind="small", n=n, A=encode.mat_int(A0), raised="", malformed="",
                bc=[], ebc=[], ref_bc=[], ref_raised="")
 
     def arg(name):
@@ -203,6 +213,292 @@ def build_jobs(ctx):
     return jobs
 
 
+# ----------------------------------------------------------------- scale regime
+# Chains of gadgets (spec/BetweennessChain.tla).  A gadget is (m, A): a small length matrix whose
+# local node 0 is its `in` and local node m-1 its `out` terminal; consecutive gadgets share a
+# junction node; gadget k's lengths are multiplied by 2**e_k.  Python only assembles the matrix and
+# encodes what came back; the expected values are TLC's (composition of local exact fractions).
+def wf(x):
+    """value -> [whole part, 10^-6 part] (floor + fraction), clipped like encode.e_int"""
+    x = float(x)
+    if math.isnan(x):
+        return [encode.NAN, 0]
+    if math.isinf(x) or abs(x) >= encode.INF:
+        return [encode.INF if x > 0 else encode.NINF, 0]
+    w = math.floor(x)
+    return [int(w), int(round((x - w) * encode.Q6))]
+
+
+def mant_exp(v):
+    """positive finite float -> (odd integer mantissa, exponent), v == mant * 2**exp exactly"""
+    m, e = math.frexp(float(v))
+    while m != int(m):
+        m *= 2
+        e -= 1
+    return int(m), e
+
+
+def chain_matrix(lib, seq):
+    n = 1 + sum(lib[t - 1]["m"] - 1 for t, _ in seq)
+    A = np.zeros((n, n))
+    off = 0
+    for t, e in seq:
+        g = lib[t - 1]
+        m = g["m"]
+        A[off:off + m, off:off + m] += np.ldexp(np.array(g["A"], dtype=float), e)
+        off += m - 1
+    return A
+
+
+def exec_chain(job):
+    import bct
+    fn = job["fn"]
+    A0 = chain_matrix(job["lib"], job["seq"])
+    n = len(A0)
+    dt, lay = job.get("draw", "float64"), job.get("layout", "C")
+    rec = dict(fn=fn, kind="chain", n=n, lib=job["lib"], seq=job["seq"], edges=[], raised="", malformed="",
+               bc_w=[], bc_f=[], ebc_w=[], ebc_f=[], ebc_off=0, ref_w=[], ref_f=[], ref_raised="")
+
+    def arg(name):
+        if job.get("via") == "weights":
+            W = np.zeros_like(A0)
+            W[A0 != 0] = 1.0 / A0[A0 != 0]
+            back = np.zeros_like(A0)
+            back[W != 0] = 1.0 / W[W != 0]
+            if not np.array_equal(back, A0):
+                raise core.MachineryError("1/(1/L) != L for the lengths of this job")
+            return bct.weight_conversion(rc.as_variant(W, "float64", lay), "lengths")
+        return rc.as_variant(A0, arg_dtype(name, dt), lay)
+    # the connections of the matrix the routine is actually handed
+    B = np.array(arg(fn), dtype=float)
+    ii, jj = np.nonzero(B)
+    for i, j in zip(ii.tolist(), jj.tolist()):
+        mnt, ex = mant_exp(B[i, j])
+        rec["edges"].append([i + 1, j + 1, mnt, ex])
+    with np.errstate(all="ignore"):
+        try:
+            out = getattr(bct, fn)(arg(fn))
+        except Exception as e:
+            rec["raised"] = encode.exc_name(e)
+            return rec
+        try:
+            if fn in NODE_OF:
+                ebc, bc = out
+                ebc = np.asarray(ebc, dtype=float)
+                if np.shape(ebc) != (n, n):
+                    raise ValueError("EBC has shape %r" % (np.shape(ebc),))
+                vals = [wf(ebc[i, j]) for i, j in zip(ii.tolist(), jj.tolist())]
+                rec["ebc_w"], rec["ebc_f"] = [v[0] for v in vals], [v[1] for v in vals]
+                rec["ebc_off"] = int(np.count_nonzero((ebc != 0) & (B == 0)))
+            else:
+                bc = out
+            if np.shape(bc) != (n,):
+                raise ValueError("BC has shape %r" % (np.shape(bc),))
+            vals = [wf(v) for v in np.asarray(bc, dtype=float)]
+            rec["bc_w"], rec["bc_f"] = [v[0] for v in vals], [v[1] for v in vals]
+        except (ValueError, TypeError) as e:
+            rec["malformed"] = str(e)[:100]
+            for k in ("bc_w", "bc_f", "ebc_w", "ebc_f"):
+                rec[k] = []
+            return rec
+        if fn in NODE_OF:
+            if not job.get("ref", True):
+                rec["ref_raised"] = "not_run"          # the node routine is too slow at this size
+            else:
+                try:
+                    vals = [wf(v) for v in np.asarray(getattr(bct, NODE_OF[fn])(arg(NODE_OF[fn])), dtype=float).ravel()]
+                    rec["ref_w"], rec["ref_f"] = [v[0] for v in vals], [v[1] for v in vals]
+                except Exception as e:
+                    rec["ref_raised"] = encode.exc_name(e)
+    return rec
+
+
+def _und(m, pairs):
+    A = np.zeros((m, m), dtype=int)
+    for i, j, v in pairs:
+        A[i, j] = A[j, i] = v
+    return A
+
+
+def _dir(m, pairs):
+    A = np.zeros((m, m), dtype=int)
+    for i, j, v in pairs:
+        A[i, j] = v
+    return A
+
+
+TIES = {2: [(1, 3), (2, 2)], 3: [(1, 3), (2, 2), (3, 1)]}
+
+
+def g_edge(und=True, b=1):
+    return (_und if und else _dir)(2, [(0, 1, b)])
+
+
+def g_bundle(w, und=True, weighted=False):
+    """in - w parallel middle nodes - out: w tied routes (w=2: a 'diamond'); weighted: the routes
+    have different first / second lengths with the same total (w <= 3)"""
+    lens = TIES[w] if weighted else [(1, 1)] * w
+    pairs = []
+    for x, (a, b) in enumerate(lens):
+        pairs += [(0, 1 + x, a), (1 + x, w + 1, b)]
+    return (_und if und else _dir)(w + 2, pairs)
+
+
+def g_clique(m):
+    return _und(m, [(i, j, 1) for i in range(m) for j in range(i + 1, m)])
+
+
+def g_cycle(m, und=True):
+    """a cycle through in (0) and out (m-1), out half way round: two routes, tied when m is even"""
+    h = m // 2
+    ring = [0] + list(range(1, h)) + [m - 1] + list(range(h, m - 1))
+    pairs = [(ring[i], ring[(i + 1) % m], 1) for i in range(m)]
+    return (_und if und else _dir)(m, pairs)
+
+
+def g_random(rng, und, lens):
+    """any small graph (its terminals need not be connected).  Sizes keep every local number of
+    tied shortest paths <= 7, hence the common denominator of a chain <= 420 (spec: DenMax)"""
+    m = rng.randint(3, 7 if lens == [1] else 5)
+    A = inputs.rand_graph(rng, m, rng.choice([0.3, 0.5, 0.7]), und=und)
+    return np.asarray(with_lengths(rng, np.asarray(A), und, lens)).astype(int)
+
+
+def diameter_hops(A):
+    """largest finite hop distance and largest out-degree (input shaping only: which inputs the
+    matrix-power routine can be given within the time budget)"""
+    n = len(A)
+    nb = [np.flatnonzero(A[i]).tolist() for i in range(n)]
+    best = 0
+    for s in range(n):
+        dist = {s: 0}
+        front = [s]
+        while front:
+            nxt = []
+            for u in front:
+                for v in nb[u]:
+                    if v not in dist:
+                        dist[v] = dist[u] + 1
+                        nxt.append(v)
+            front = nxt
+        best = max(best, max(dist.values()))
+    return best, max(len(x) for x in nb)
+
+
+def chain_families(rng, quick):
+    """-> [(name, [(gadget, exponent), ...])]; every choice from the seeded RNG"""
+    out = []
+    und = lambda: rng.random() < 0.6
+
+    def rep(g, k, e=0):
+        return [(g, e)] * k
+    # (a) 2^K tied paths: K ~ 20 (beyond int16 / float16), ~ 40 (int32, float32's 24 bits), ~ 70 (int64)
+    for lo, hi in ([(18, 24), (38, 44), (64, 70)] if quick else [(18, 24), (30, 34), (38, 44), (52, 56), (64, 75), (100, 130)]):
+        for weighted in ((rng.random() < 0.5,) if quick else (False, True)):
+            out.append(("diamonds", rep(g_bundle(2, und(), weighted), rng.randint(lo, hi))))
+    # (b) 3^K tied paths (not powers of two: inexact in double precision beyond 2^53; 3^81 > 3.4e38)
+    for lo, hi in ([(36, 45)] if quick else [(12, 16), (36, 45), (60, 70), (82, 90), (120, 130)]):
+        out.append(("triple-routes", rep(g_bundle(3, und(), rng.random() < 0.5), rng.randint(lo, hi))))
+    # (c) long paths: node counts beyond int8 / uint8 (and int16-sized products n*n)
+    for lo, hi in ([(130, 150), (257, 270)] if quick else [(128, 129), (130, 160), (200, 256), (257, 300), (330, 400)]):
+        u = und()
+        out.append(("long-path", rep(g_edge(u, 1), rng.randint(lo, hi))))
+    # (d) clique + long path: the walk counts of the matrix-power routine pass 2^63 and 3.4e38
+    for lo, hi in ([(24, 30), (48, 60)] if quick else [(24, 30), (48, 60), (90, 110), (150, 170)]):
+        c = [(g_clique(rng.randint(6, 9)), 0)]
+        p = rep(g_edge(True), rng.randint(lo, hi))
+        out.append(("clique+path", c + p if rng.random() < 0.5 else p + c))
+    # (e) lengths b * 2^e, e sweeping -13..13 (1e-4 .. 1e4) along a chain of 100+ hops with ties
+    for _ in range(1 if quick else 4):
+        u = und()
+        pool_ = [g_edge(u, 1), g_edge(u, 3), g_bundle(2, u, True), g_bundle(3, u, True),
+                 _und(3, [(0, 1, 1), (1, 2, 1), (0, 2, 2)]), _und(3, [(0, 1, 1), (1, 2, 2), (0, 2, 2)])]
+        k = rng.randint(60, 90)
+        sweep = rng.choice(["up", "down", "zigzag", "random"])
+        ch = []
+        for i in range(k):
+            e = {"up": -13 + (26 * i) // (k - 1), "down": 13 - (26 * i) // (k - 1),
+                 "zigzag": 13 if i % 2 else -13, "random": rng.randint(-13, 13)}[sweep]
+            ch.append((rng.choice(pool_), e))
+        out.append(("length-sweep-" + sweep, ch))
+    # (f) wide frontiers / many nodes at a small diameter (bundles of 8..48 routes)
+    for _ in range(1 if quick else 3):
+        u = und()
+        widths = [8, 12, 16, 24] if quick else [8, 12, 16, 24, 30, 40, 48]
+        ws = [rng.choice(widths) for _ in range(rng.randint(3, 5))]
+        while sum(w + 1 for w in ws) < 130:
+            ws.append(rng.choice(widths))
+        out.append(("bundles", [(g_bundle(w, u), 0) for w in ws]))
+    # (g) mixed chains: any small random gadgets (one-way, unreachable terminals), cliques (dense
+    #     blocks), bundles, cycles; binary or with tie-rich lengths
+    for i in range(3 if quick else 12):
+        binary = rng.random() < 0.5
+        lens = [1] if binary else rng.choice(LENS)
+        k = rng.randint(4, 10) if i % 3 == 0 else rng.randint(25, 60)      # 17..40 nodes / 130+ nodes
+        ch = []
+        for _ in range(k):
+            kind = rng.choice(["random", "random", "random-dir", "clique", "bundle", "cycle", "edge", "arc"])
+            if kind == "random":
+                g = g_random(rng, True, lens)
+            elif kind == "random-dir":
+                g = g_random(rng, False, lens)
+            elif kind == "clique":
+                g = g_clique(rng.randint(3, 12))
+            elif kind == "bundle":
+                g = g_bundle(rng.choice([2, 3, 4, 5, 6]), und())
+            elif kind == "cycle":
+                g = g_cycle(rng.randint(4, 8), und())
+            else:
+                g = g_edge(kind == "edge", rng.choice(lens))
+            ch.append((g, 0))
+        out.append(("mixed", ch))
+    return out
+
+
+INT_SMALL = ("int8", "int16")      # signed narrow integer arrays: 0/1 and lengths 1..3 fit
+
+
+def chain_jobs(rng, name, chain, bin_budget):
+    lib, index, seq = [], {}, []
+    for g, e in chain:
+        key = (len(g), tuple(int(v) for v in np.asarray(g).ravel()))
+        if key not in index:
+            lib.append(dict(m=len(g), A=np.asarray(g).astype(int).tolist()))
+            index[key] = len(lib)
+        seq.append([index[key], int(e)])
+    A = chain_matrix(lib, seq)
+    n = len(A)
+    binary = bool(np.all((A == 0) | (A == 1)))
+    scaled = any(e for _, e in seq)
+    fam = (rc.DT_BIN if binary else rc.DT_COUNT) + INT_SMALL
+    variant = (("float64", rng.choice(rc.LAYOUTS)) if scaled else rc.draw_variant(rng, fam, p_plain=0.3))
+    via = rng.choice(["", "", "", "weights"])
+    fns = list(FNS) if binary else ["betweenness_wei", "edge_betweenness_wei"]
+    slow = False
+    if binary:
+        diam, deg = diameter_hops(A)
+        # the matrix-power routine costs diam products of n x n matrices (and forms the number of
+        # WALKS of every length <= diam, at most deg^diam)
+        slow = float(n) ** 3 * diam > bin_budget or diam * math.log10(max(deg, 2)) > 290
+        if slow:
+            fns.remove("betweenness_bin")
+    jobs = []
+    for fn in fns:
+        jobs.append(dict(fn=fn, kind="chain", src="scale-" + name, n=n, lib=lib, seq=seq,
+                         dtype=arg_dtype(fn, variant[0]), draw=variant[0], layout=variant[1],
+                         via=via if fn.endswith("_wei") else "",
+                         ref=not (slow and fn == "edge_betweenness_bin")))
+    return jobs
+
+
+def build_scale_jobs(ctx):
+    rng = random.Random("C08-scale-%s" % ctx.seed)
+    jobs = []
+    for name, chain in chain_families(rng, ctx.quick):
+        jobs += chain_jobs(rng, name, chain, 2e8 if ctx.quick else 4e9)
+    return jobs
+
+
 def what(job, rec, clause):
     if rec.get("raised"):
         return "raised %s" % rec["raised"]
@@ -214,6 +510,11 @@ def what(job, rec, clause):
 
 def run(ctx):
     q = ctx.quick
+    # composition operator of the scale regime = definitions (E) / (D) on small chains
+    ctx.mc("MC_BetweennessChain.tla", "MC_BetweennessChain_quick.cfg")
+    if not q:
+        ctx.mc("MC_BetweennessChain.tla", "MC_BetweennessChain_pairs.cfg")
+        ctx.mc("MC_BetweennessChain.tla", "MC_BetweennessChain_triples.cfg")
     ctx.mc("MC_Brandes.tla", "MC_Brandes_dir.cfg")
     ctx.mc("MC_Brandes.tla", "MC_Brandes_und.cfg")
     ctx.mc("MC_BrandesPower.tla", "MC_BrandesPower_dir.cfg" if q else "MC_BrandesPower_dir_thorough.cfg")
@@ -224,6 +525,20 @@ def run(ctx):
     jobs = build_jobs(ctx)
     recs = pool.run_jobs(__name__, jobs)
     verdicts = ctx.validate(*TRACE, recs, chunk=8000)
+    # scale regime: few, large inputs; their own time limit and validation batch
+    sjobs = build_scale_jobs(ctx)
+    srecs = pool.run_jobs(__name__, sjobs, limit=240.0)
+    sverd = ctx.validate(*TRACE, srecs, tag="Trace_Betweenness_scale", chunk=400)
+    bad = [(j["src"], v[0]) for j, r, v in zip(sjobs, srecs, sverd) if v[0].startswith("skip:") and not r.get("timeout")]
+    if bad:
+        raise core.MachineryError("scale-regime records outside the spec's domain: %r" % bad[:3])
+    ctx.extra["scale_regime"] = dict(
+        records=len(sjobs), timeouts=sum(1 for r in srecs if r.get("timeout")),
+        max_nodes=max(j["n"] for j in sjobs),
+        families=sorted(set(j["src"] for j in sjobs)),
+        not_given_to_betweenness_bin=sorted(set("%s(n=%d)" % (j["src"], j["n"]) for j in sjobs
+                                                if j["fn"] == "edge_betweenness_bin" and not j["ref"])))
+    jobs, recs, verdicts = jobs + sjobs, recs + srecs, verdicts + sverd
     ctx.judge(jobs, rc.tag_failures(ctx, jobs, recs, verdicts), verdicts, what)
     ctx.extra["argument_variants"] = rc.variant_counts(jobs)
     # non-trivial (measured on what the code returned / the class the spec computed): distinct
@@ -232,6 +547,11 @@ def run(ctx):
     seen = set()
     for r, v in zip(recs, verdicts):
         if r.get("timeout"):
+            continue
+        if r.get("kind") == "chain":
+            frac = any(x % encode.Q6 for x in r["bc_f"] + r["ebc_f"])
+            if frac or v[2] == "chain_some_unreachable":
+                seen.add(str((r["lib"], r["seq"])))
             continue
         frac = any(x % encode.Q6 for x in r["bc"]) or any(x % encode.Q6 for row in r["ebc"] for x in row)
         if frac or v[2] in ("some_source_misses_1", "some_source_misses_2plus"):
@@ -245,7 +565,10 @@ def run(ctx):
                 "rings of cliques, equal/unequal components; also oriented) with lengths from tie-rich and "
                 "single-value sets; a sample of all inputs again as another argument dtype (bool/uint8/int32/int64 "
                 "where the routine's domain allows it) and memory layout (Fortran, transposed, window, strided) "
-                "and through weight_conversion(1/L, 'lengths'); all choices drawn from the seeded RNG; non-trivial = distinct input where a returned value is fractional "
+                "and through weight_conversion(1/L, 'lengths'); a scale-regime family of chains of gadgets with "
+                "130..400 nodes (2^20..2^70 and 3^40..3^85 tied paths, long paths, clique+long path, lengths "
+                "b*2^e with e in -13..13 along 100+ hops, bundles, mixed random gadgets; int8/int16 arrays too) "
+                "judged against the composition of local exact fractions; all choices drawn from the seeded RNG; non-trivial = distinct input where a returned value is fractional "
                 "(a tie was split) or some node is unreachable from some source"
                 % (("5", "700 sampled", "") if q else
                    ("5", "all", ", 3000 sampled undirected graphs on 6 nodes")))
@@ -256,6 +579,11 @@ def run(ctx):
         "equal to the path enumeration (E) only on the model-checked sizes",
         "inputs: integer lengths 0..3, empty diagonal, n <= 10; outputs compared at 10^-6 (tolerance 2 "
         "units for one fraction, #fractional terms + 1 for a term-wise sum)",
+        "scale regime: only chains of gadgets (junctions are cut nodes), n <= 1200, local tie counts with "
+        "common denominator <= 1000; expected values by composition (BetweennessChain!ChainNodeNum / "
+        "ChainEdgeNum), proved equal to the definitions only on the chains of MC_BetweennessChain; the sum "
+        "identities are not judged separately there; betweenness_bin is given only the chains it finishes "
+        "within the time budget (n^3 * diameter) and whose walk counts stay below 1e290",
         "the thorough BrandesImpl model for digraphs on 4 nodes covers every binary graph but lengths "
         "{1,2} only on graphs with <= 5 connections (the full family has 531441 members)",
     ]
